@@ -1777,6 +1777,57 @@ def probe_interpreter_settings(ctx):
     return n
 
 
+def probe_bare_classes(ctx):
+    """Schemas built from the public classes directly (IntSchema(), TypeAliasSchema(), a Props over a registry
+    dict the caller owns ...) instead of through the facade: every read-only operation leaves the registry of the
+    schema - and the caller's dict - exactly as it was.  (The facade cannot build an alias without a type or a
+    props object over a caller's dict; the classes can.)"""
+    import d42.declaration.types as T
+    r = ctx.rng
+    n = 0
+    classes = [(nm[:-6], getattr(T, nm), getattr(T, nm[:-6] + "Props", None)) for nm in sorted(dir(T))
+               if nm.endswith("Schema") and nm not in ("Schema", "GenericSchema", "GenericTypeAliasSchema")
+               and isinstance(getattr(T, nm), type)]
+    values = [None, 0, 1.5, "x", b"x", [], [1, "a"], {}, {"a": 1}, True, ...]
+    ops = [("validate", lambda s, v: validate(s, v).has_errors()), ("validate_or_fail", lambda s, v: validate_or_fail(s, v)),
+           ("repr", lambda s, v: repr(s)), ("represent(indent=2)", lambda s, v: represent(s, indent=2)), ("fake", lambda s, v: fake(s)),
+           ("%", lambda s, v: s % v), ("==", lambda s, v: s == v), ("!=", lambda s, v: s != v), ("== schema", lambda s, v: s == type(s)()),
+           ("|", lambda s, v: s | schema.none), ("from_native", lambda s, v: from_native(v)),
+           ("every props attribute", lambda s, v: [getattr(s.props, a) for a in dir(type(s.props)) if not a.startswith("_") and
+                                                   isinstance(getattr(type(s.props), a), property)])]
+    for cname, cls, pcls in classes:
+        variants = [("%sSchema()" % cname, lambda: (cls(), None))]
+        if pcls is not None:
+            def over_registry(pcls=pcls, cls=cls):
+                reg = {}
+                return cls(pcls(reg)), reg
+            variants.append(("%sSchema(%sProps(registry))" % (cname, cname), over_registry))
+            if cname == "TypeAlias":
+                variants.append(("TypeAliasSchema(TypeAliasProps().update(name='U'))", lambda: (cls(pcls().update(name="U")), None)))
+        for vsrc_, mk in variants:
+            try:
+                s, reg = mk()
+            except Exception:  # noqa
+                continue
+            for oname, f in ops:
+                for v in r.sample(values, 3):
+                    before = (repr(s.props), list(s.props), None if reg is None else dict(reg))
+                    try:
+                        f(s, v)
+                        out = "returned"
+                    except Exception as e:  # noqa
+                        out = "raised " + type(e).__name__
+                    n += 1
+                    after = (repr(s.props), list(s.props), None if reg is None else dict(reg))
+                    if after != before:
+                        ctx.violation(f"`{oname}` wrote into the props of an existing schema",
+                                      {"kind": "history", "schema": vsrc_, "operation": oname, "argument": common.srepr(v), "outcome": out,
+                                       "props_before": str(before)[:300], "props_after": str(after)[:300],
+                                       "expected": "the registry (and the caller's dict it was built over) unchanged"})
+                        return n
+    return n
+
+
 def probe_augmented_assignment(ctx):
     """`x = s; x += t` (likewise |= and %=) binds x to a NEW schema: the object s still refers to is unchanged,
     whatever in-place protocol methods exist."""
@@ -1954,6 +2005,7 @@ def run(ctx):
     ctx.coverage["distribution"]["generation_independence_probes"] = indep
     ctx.coverage["distribution"]["collection_argument_probes"] = probe_collection_arguments(ctx)
     ctx.coverage["distribution"]["interpreter_setting_probes"] = probe_interpreter_settings(ctx)
+    ctx.coverage["distribution"]["bare_class_probes"] = probe_bare_classes(ctx)
 
 
 def _run(ctx, pristine, n_hist, n_ops, depth, n_slices, shrink_budget, model_hist):
